@@ -53,6 +53,12 @@ def block(c, cat):
         o.append('    ht::check((std::is_same_v<decltype(%s), %s&&>), cid, "container not returned as an rvalue");' % (call, C))
         o.append('    ht::check(a%d.items.size() == 2 && a%d.items[0] == -7 && a%d.items[1] == %d, cid, "the element is not appended after the existing contents");' % (c['cont'], c['cont'], c['cont'], c['elem']))
         o.append('    ht::check(ht::copies == 0 && ht::moves == 0, cid, "the container or an argument was copied or moved");')
+        if h == 'emplace_back' and cat != 'mo':
+            # a std::vector of elements that declare their own comma operator: the helper still returns THAT vector, one longer
+            cargs = ', '.join((('std::move(%s)' if mv else '%s') % ('cv' if k == c['cont'] else 'ce' if k == c['elem'] else 'a%d' % k)) for k in range(1, n + 1))
+            o.append('    std::vector<ht::CommaE> cv; cv.reserve(4); ht::CommaE ce(5);')
+            o.append('    decltype(auto) cr = ctpg::ftors::emplace_back<%d, %d>{}(%s);' % (i, j, cargs))
+            o.append('    ht::check((const void*)&cr == (const void*)&cv && cv.size() == 1 && cv[0].id == 5, cid, "element type with its own comma operator: the helper does not return the container it appended to");')
         if h == 'push_back' and cat != 'mo':
             # container and element of ONE recursive type (each has a push_back taking the other): the template's indices decide
             rargs = ', '.join(('std::move(q%d)' % k) if mv else 'q%d' % k for k in range(1, n + 1))
